@@ -279,6 +279,10 @@ impl GenericsAnalyzer {
                                 }
 
                                 deps_trait_bounds.extend(where_paths);
+                            } else {
+                                // a predicate on another parameter: that parameter is the trait's now, and further
+                                // predicates of the trait (`I::Item: Debug`) may build on this one (`I: Iterator`)
+                                self.trait_generics.where_predicates.push(predicate.clone());
                             }
                         }
                         _ => {
